@@ -209,6 +209,24 @@ func c07Corpus(srv string) []*c07Session {
 		b.pathOp("LSTAT", fxpLstat, "a")
 		b.pathOp("STAT", fxpStat, "a/b/x")
 	})
+	mk("attribute-blocks", func(b *c07Builder) {
+		h := b.open("pre.txt", 0x12, 4, attrBlock(4, 0, 0, 0, 0o644, 0, 0), true) // WRITE|TRUNC of an existing file
+		b.write(h, 0, []byte("new content"))
+		b.handleOp("CLOSE", fxpClose, h)
+		h = b.open("pre.txt", 1, 4, attrBlock(4, 0, 0, 0, 0o600, 0, 0), true) // READ with a permissions block
+		b.read(h, 0, 50)
+		b.handleOp("CLOSE", fxpClose, h)
+		h = b.open("made.txt", 0x0a, 4, attrBlock(4, 0, 0, 0, 0o640, 0, 0), true) // CREAT|WRITE
+		b.write(h, 0, []byte("0123456789"))
+		b.add("FSETSTAT", func(id uint32) []byte {
+			return rawFsetstat(id, h, 1|4|8, attrBlock(1|4|8, 3, 0, 0, 0o600, 1333333333, 1444444444))
+		})
+		b.handleOp("CLOSE", fxpClose, h)
+		b.setstat("keep/k1", 1|4|8, attrBlock(1|4|8, 1, 0, 0, 0o640, 1555555555, 1666666666))
+		b.pathOp("STAT", fxpStat, "keep/k1")
+		b.pathOp("STAT", fxpStat, "made.txt")
+		b.pathOp("STAT", fxpStat, "pre.txt")
+	})
 	mk("bigger-data-parallel-reads", func(b *c07Builder) {
 		h := b.open("big.bin", 0x1a, 0, nil, true)
 		b.write(h, 0, c07Pattern(600, 1))
@@ -268,7 +286,7 @@ func (fs *c11FS) populateC07() {
 // mutations
 
 type c07Mut struct {
-	kind  string // cut | len | type | garbage
+	kind  string // cut | len | type | garbage | attrcut
 	frame int
 	off   int
 	val   uint64
@@ -353,6 +371,11 @@ func c07Mutations(s *c07Session, thorough bool, nGarbage int) []c07Mut {
 	for g := 0; g < nGarbage; g++ {
 		out = append(out, c07Mut{"garbage", len(s.frames), 0, uint64(g)})
 	}
+	for f, fr := range s.frames { // attrcut: the attribute block of OPEN/SETSTAT/FSETSTAT loses its last off bytes
+		for k := 1; k <= c07AttrBlockLen(fr[4], fr[5:]); k++ {
+			out = append(out, c07Mut{"attrcut", f, k, 0})
+		}
+	}
 	return out
 }
 
@@ -392,11 +415,63 @@ func c07Apply(s *c07Session, m c07Mut, garbage [][]byte) []byte {
 	case "garbage":
 		join(s.frames)
 		out = append(out, garbage[m.val]...)
+	case "attrcut":
+		join(s.frames[:m.frame])
+		fr := s.frames[m.frame]
+		t := append([]byte(nil), fr[:len(fr)-m.off]...)
+		binary.BigEndian.PutUint32(t, uint32(len(t)-4))
+		out = append(out, t...)
+		join(s.frames[m.frame+1:])
 	}
 	return out
 }
 
 const c07MaxMsg = 256 * 1024
+
+// c07AttrBlock locates the attribute flags and block of an OPEN/SETSTAT/FSETSTAT payload (after the type byte).
+func c07AttrBlock(typ byte, payload []byte) (flags uint32, block []byte, ok bool) {
+	if typ != fxpOpen && typ != fxpSetstat && typ != fxpFsetstat || len(payload) < 4 {
+		return 0, nil, false
+	}
+	_, b, ok := c07Str(payload[4:])
+	if !ok {
+		return 0, nil, false
+	}
+	if typ == fxpOpen {
+		if len(b) < 4 {
+			return 0, nil, false
+		}
+		b = b[4:]
+	}
+	if len(b) < 4 {
+		return 0, nil, false
+	}
+	return binary.BigEndian.Uint32(b), b[4:], true
+}
+
+func c07AttrBlockLen(typ byte, payload []byte) int {
+	_, b, _ := c07AttrBlock(typ, payload)
+	return len(b)
+}
+
+// c07AttrShort: the packet passes makePacket (the block travels as raw bytes) but the block is shorter than its flags
+// declare (size 8, uid/gid 8, permissions 4, times 8, extended count 4).
+func c07AttrShort(typ byte, payload []byte) bool {
+	fl, b, ok := c07AttrBlock(typ, payload)
+	if !ok {
+		return false
+	}
+	need := 0
+	for _, f := range []struct {
+		bit uint32
+		n   int
+	}{{1, 8}, {2, 8}, {4, 4}, {8, 8}, {0x80000000, 4}} {
+		if fl&f.bit != 0 {
+			need += f.n
+		}
+	}
+	return len(b) < need
+}
 
 // c07Classify reads M the way a server does. g = number of leading frames identical to the reference. class:
 // identical | eof (M is exactly the first g frames) | bad (the next thing is malformed: sub says how) | valid (the
@@ -434,6 +509,9 @@ func c07Classify(s *c07Session, M []byte) (g int, class, sub string, typ byte) {
 			continue
 		}
 		_, ek, _ := sftp.VerifDecA(fr[4], fr[5:])
+		if ek == "ok" && c07AttrShort(fr[4], fr[5:]) {
+			return g, "bad", "short-attrs", fr[4]
+		}
 		if ek == "ok" || ek == "unknownext" {
 			return g, "valid", "", fr[4]
 		}
@@ -843,6 +921,14 @@ func (st *c07Child) handle(req string) string {
 	}
 	M := c07Apply(s, c07Mut{f[3], fi, off, val}, st.garbage)
 	g, class, sub, typ := c07Classify(s, M)
+	shortAttrs := class == "bad" && sub == "short-attrs"
+	if shortAttrs { // such a packet does not end the session: the stream is ended right after it to observe its effect alone
+		end := 0
+		for _, fr := range s.frames[:g] {
+			end += len(fr)
+		}
+		M = M[:end+4+int(binary.BigEndian.Uint32(M[end:]))]
+	}
 	// every leading packet of M that frames and decodes is sent on its own and answered before the next one goes out
 	// (for a mutant whose changed frame is still a valid request this includes that frame and what follows it)
 	var paced [][]byte
@@ -878,6 +964,13 @@ func (st *c07Child) handle(req string) string {
 		if class == "valid" && i >= limit {
 			break
 		}
+		if shortAttrs && i == g {
+			if code, isStatus := fr.statusCode(); !isStatus || code == 0 {
+				fails = append(fails, fmt.Sprintf("malformed-attrs-acted-upon: %s packet whose attribute block is shorter than its flags declare was answered with type %d code %d", c07TypeName(typ), fr.Typ, code))
+				break
+			}
+			continue
+		}
 		if i >= g {
 			fails = append(fails, fmt.Sprintf("response-not-prefix: %d responses were sent but only %d well-formed requests precede the malformed data (%s)", len(frames), g, sub))
 			break
@@ -893,7 +986,13 @@ func (st *c07Child) handle(req string) string {
 	// 2. backend: exactly as if the stream had stopped before the malformed packet
 	if snap != nil && class != "valid" {
 		if d := c11SnapDiff(ref.snaps[g], snap); d != "" {
-			if class == "bad" {
+			if shortAttrs {
+				if nc := c11SnapDiff(c07NoCalls(ref.snaps[g]), c07NoCalls(snap)); nc != "" {
+					fails = append(fails, fmt.Sprintf("malformed-attrs-acted-upon: %s packet whose attribute block is shorter than its flags declare was acted upon: %s", c07TypeName(typ), nc))
+				} else {
+					fails = append(fails, fmt.Sprintf("malformed-attrs-reached-handler: %s packet whose attribute block is shorter than its flags declare was handed to a handler (which refused it)", c07TypeName(typ)))
+				}
+			} else if class == "bad" {
 				fails = append(fails, fmt.Sprintf("malformed-acted-upon: %s packet (%s) was acted upon: backend differs from the state after the %d well-formed requests: %s", c07TypeName(typ), sub, g, d))
 			} else {
 				fails = append(fails, fmt.Sprintf("state-mismatch: backend after the first %d requests differs from the sequential reference: %s", g, d))
@@ -905,6 +1004,16 @@ func (st *c07Child) handle(req string) string {
 		return "FAIL " + fails[0]
 	}
 	return "ok"
+}
+
+func c07NoCalls(snap map[string]string) map[string]string {
+	out := map[string]string{}
+	for k, v := range snap {
+		if k != "#calls" {
+			out[k] = v
+		}
+	}
+	return out
 }
 
 // ---------------------------------------------------------------------------------------------------------------
@@ -1023,7 +1132,8 @@ func runC07(c *Ctx) {
 	c.Rule("corpus of valid, sequentially-deterministic raw sessions (INIT, MKDIR, OPEN, WRITE, CLOSE, STAT, LSTAT, FSTAT, OPENDIR, READDIR, RENAME, REMOVE, RMDIR, SETSTAT, FSETSTAT, SYMLINK, READLINK, REALPATH, " +
 		"posix-rename, hardlink, unknown extended requests; 20-26 frames each) against a temp dir (os server) and an own in-memory backend (request server), allocator off and on; mutations: EOF at every byte offset (mut=cut val=0), " +
 		"every frame truncated at every offset with its length field adjusted and the rest of the stream following (mut=cut val=1), every 4-byte window of every frame <- 0,1,n-1,n+1,2^31-1,2^32-1 (mut=len), " +
-		"every type byte replaced (mut=type; quick: 18 values), garbage appended (mut=garbage); frames longer than 160 (thorough 1200) bytes are sampled (first 48, last 12, every 61st offset). " +
+		"every type byte replaced (mut=type; quick: 18 values), garbage appended (mut=garbage), the attribute block of every OPEN/SETSTAT/FSETSTAT shortened by 1..its length with the frame length adjusted (mut=attrcut, off=bytes removed); " +
+		"a frame that passes makePacket but whose attribute block is shorter than its flags declare counts as malformed (short-attrs): the stream is ended right after it, it must be answered with a failure status and leave the backend untouched; frames longer than 160 (thorough 1200) bytes are sampled (first 48, last 12, every 61st offset). " +
 		"Each stream is served in a child process: the leading packets that frame and decode are sent one at a time, each answered before the next, the rest in one write, then EOF; oracle: no crash, Serve returns in 10s, responses are a prefix of the reference responses to the identical leading frames, backend equals the state after those frames, " +
 		"no goroutine, descriptor or handler object left. Mutants whose first changed frame still decodes are different valid requests: only the crash/hang/leak oracles apply to them (stat class_valid). " +
 		"non-trivial = the first thing that differs from the valid session is malformed (does not frame or does not decode)")
@@ -1033,9 +1143,9 @@ func runC07(c *Ctx) {
 		return
 	}
 	defer os.RemoveAll(root)
-	nSess := 3
+	nSess := 4
 	if c.Thorough() {
-		nSess = 5
+		nSess = 6
 	}
 	garbage := c07Garbage(c.Seed)
 	corpus := map[string][]*c07Session{"os": c07Corpus("os"), "req": c07Corpus("req")}
